@@ -13,6 +13,11 @@ def main():
     faulthandler.enable()
     # the interpreter's default recursion limit is kept: code under test that recurses per logic level must fail here
     # as it would for a user (oracles in vt/ are iterative)
+    if spec.get('debug_logging'):
+        import logging
+        import os
+        logging.basicConfig(level=logging.DEBUG, stream=open(os.devnull, 'w'))
+        logging.getLogger('cirbo').setLevel(logging.DEBUG)
     from vt import monitor
     from vt.ctx import Ctx
     ctx = Ctx(prop, spec)
